@@ -266,14 +266,34 @@ Definition mon_C02 := mon_run c02_step [].
 (* clauses 20-24 belong to C03; the driver attributes by clause number (mon_C03 is mon_C02 filtered) *)
 
 (* ================= C04: lifecycle forward only; finalized figures immutable; gates ================= *)
-(* ghost: the clock (OSetClock) *)
-Definition c04_step (clk : N) (V : view) (ob : obs) : N * clauses :=
+(* ghost: the clock (OSetClock) and, per distribution seen being created, the end of its calculation grace period as the monitor
+   computes it itself (creation clock + the configured grace at that moment), independently of what the account stores *)
+Definition tx_mentions_rd (o : op) (p : rd_ix -> bool) : bool :=
+  match o with
+  | OTx t => existsb (fun i => match unwrap (i_data i) (i_metas i) with (IxRd r, _, _) => p r | _ => false end) (tx_ixs t)
+  | _ => false end.
+Definition rises (b0 b1 : bool) : bool := negb b0 && b1.
+Definition grace_ok (born : list (key * N)) (k : key) (clk : N) : bool :=
+  match lookup k born with Some t => t <=? clk | None => true end.
+Definition c04_step (g : N * list (key * N)) (V : view) (ob : obs) : (N * list (key * N)) * clauses :=
+  let '(clk, born) := g in
   let '(o, ok, post) := ob in
   let clk' := match o with OSetClock t => t | _ => clk end in
-  if negb (ok && is_tx o) then (clk', []) else
+  if negb (ok && is_tx o) then ((clk', born), []) else
+  let born' := match single_rd o with
+               | Some (RInitializeDistribution, ms, _) =>
+                   match config_of (vget V (nthk ms 0)) with
+                   | Some c => (nthk ms 3, clk + c_calc_grace_min c * 60) :: born
+                   | None => born end
+               | _ => born end in
   let mono := flat_map (fun '(k, a) =>
     match dist_of (vget V k), dist_of a with
     | Some (d0, _), Some (d1, _) =>
+        (* a stage is entered only by its own instruction *)
+        chk (implb (rises (d_debt_final d0) (d_debt_final d1)) (tx_mentions_rd o (fun r => match r with RFinalizeDebt => true | _ => false end))) k 21 0 ++
+        chk (implb (rises (d_rewards_final d0) (d_rewards_final d1)) (tx_mentions_rd o (fun r => match r with RFinalizeRewards => true | _ => false end))) k 22 0 ++
+        chk (implb (rises (d_swept d0) (d_swept d1)) (tx_mentions_rd o (fun r => match r with RSweep => true | _ => false end))) k 23 0 ++
+        chk (implb (rises (d_writeoff_enabled d0) (d_writeoff_enabled d1)) (tx_mentions_rd o (fun r => match r with REnableWriteOff => true | _ => false end))) k 24 0 ++
         chk (implb (d_debt_final d0) (d_debt_final d1)) k 1 0 ++
         chk (implb (d_rewards_final d0) (d_rewards_final d1)) k 2 0 ++
         chk (implb (d_swept d0) (d_swept d1)) k 3 0 ++
@@ -298,23 +318,26 @@ Definition c04_step (clk : N) (V : view) (ob : obs) : N * clauses :=
             | Some (d, _), Some c =>
                 chk (d_debt_final d && negb (d_rewards_final d)) (nthk ms 1) 12 0 ++
                 chk (negb (c_min_epochs c =? 0) && (d_epoch d + c_min_epochs c <=? c_next_epoch c)) (nthk ms 1) 13 (d_epoch d) ++
-                chk (negb (d_calc_allowed_ts d =? 0) && (d_calc_allowed_ts d <=? clk)) (nthk ms 1) 14 clk
+                chk (negb (d_calc_allowed_ts d =? 0) && (d_calc_allowed_ts d <=? clk)) (nthk ms 1) 14 clk ++
+                chk (grace_ok born (nthk ms 1) clk) (nthk ms 1) 25 clk
             | _, _ => [] end
         | RSweep => match dist_at_pos 1%nat with Some (d, _) => chk (d_rewards_final d && negb (d_swept d)) (nthk ms 1) 15 0 | None => [] end
         | RDistributeRewards _ _ _ => match dist_at_pos 1%nat with Some (d, _) => chk (d_swept d) (nthk ms 1) 16 0 | None => [] end
         | RConfigureDebt _ _ _ | RFinalizeDebt =>
             match dist_at_pos 2%nat with Some (d, _) =>
               chk (negb (d_debt_final d)) (nthk ms 2) 17 0 ++
-              chk (negb (d_calc_allowed_ts d =? 0) && (d_calc_allowed_ts d <=? clk)) (nthk ms 2) 18 clk | None => [] end
+              chk (negb (d_calc_allowed_ts d =? 0) && (d_calc_allowed_ts d <=? clk)) (nthk ms 2) 18 clk ++
+              chk (grace_ok born (nthk ms 2) clk) (nthk ms 2) 25 clk | None => [] end
         | RConfigureRewards _ _ =>
             match dist_at_pos 2%nat with Some (d, _) =>
               chk (negb (d_rewards_final d)) (nthk ms 2) 19 0 ++
-              chk (negb (d_calc_allowed_ts d =? 0) && (d_calc_allowed_ts d <=? clk)) (nthk ms 2) 18 clk | None => [] end
+              chk (negb (d_calc_allowed_ts d =? 0) && (d_calc_allowed_ts d <=? clk)) (nthk ms 2) 18 clk ++
+              chk (grace_ok born (nthk ms 2) clk) (nthk ms 2) 25 clk | None => [] end
         | RWriteOff _ _ => match dist_at_pos 2%nat with Some (d, _) => chk (d_debt_final d && d_writeoff_enabled d) (nthk ms 2) 20 0 | None => [] end
         | _ => [] end
     | None => [] end in
-  (clk', mono ++ gates).
-Definition mon_C04 := mon_run c04_step 0.
+  ((clk', born'), mono ++ gates).
+Definition mon_C04 := mon_run c04_step (0, []).
 
 (* ================= C15: consecutive, paced creation; immutable snapshots ================= *)
 Definition c15_step (clk : N) (V : view) (ob : obs) : N * clauses :=
@@ -465,7 +488,10 @@ Definition c05_step (V : view) (ob : obs) : clauses :=
             chk (tok_amount (post_of V post tk) =? tok_amount (vget V tk) + z) tk 10 z ++
             chk (tok_amount (vget V sd) =? tok_amount (post_of V post sd) + z) sd 11 z ++
             chk (j_swap_dest_balance j0 =? j_swap_dest_balance j1 + z) jk 12 z ++
-            (* exactly what the configured swap program returns for exactly that SOL amount *)
+            (* exactly what the configured swap program returns for exactly that SOL amount: the program called (account 6) is the
+               configured one and the registry / script it answers from is its own *)
+            chk (key_eqb (nthk ms 6) (c_swap_program c)) (nthk ms 6) 17 0 ++
+            chk (key_eqb (owner (vget V fk)) (c_swap_program c)) fk 18 0 ++
             match c_swap_program c, data (vget V fk) with
             | KSwapMock, DFills r =>
                 match q_dequeue (abs r) debt with
